@@ -13,7 +13,7 @@ Ltac ifs :=
 Lemma finish_finished c b2 s : finished (fst (finish c b2 s)) = true.
 Proof.
   unfold finish. destruct (finished s) eqn:F; [exact F|].
-  destruct (invalid (set_finished s)) as [[|]|]; try reflexivity.
+  destruct (invalid c (set_finished s)) as [[|]|]; try reflexivity.
   destruct (c_models c && has_logic (set_finished s) && has_time_limit c && b2); reflexivity.
 Qed.
 
@@ -27,14 +27,14 @@ Lemma finish_keeps c b2 s : let s' := fst (finish c b2 s) in
   hist s' = hist s /\ nrules s' = nrules s /\ (timed_out s = true -> timed_out s' = true).
 Proof.
   unfold finish. destruct (finished s); [simpl; tauto|].
-  destruct (invalid (set_finished s)) as [[|]|]; simpl; try tauto.
+  destruct (invalid c (set_finished s)) as [[|]|]; simpl; try tauto.
   destruct (c_models c && has_logic s && has_time_limit c && b2); simpl; tauto.
 Qed.
 
 Lemma finish_timeout c b2 s s' : finish c b2 s = (s', true) -> finished s' = true /\ timed_out s' = true.
 Proof.
   unfold finish. destruct (finished s); [intro H; inversion H|].
-  destruct (invalid (set_finished s)) as [[|]|]; try (intro H; inversion H; fail).
+  destruct (invalid c (set_finished s)) as [[|]|]; try (intro H; inversion H; fail).
   destruct (c_models c && has_logic (set_finished s) && has_time_limit c && b2); intro H; inversion H.
   split; reflexivity.
 Qed.
@@ -42,7 +42,7 @@ Qed.
 Lemma finish_no_timeout_flag c b2 s s' : finish c b2 s = (s', false) -> timed_out s' = timed_out s.
 Proof.
   unfold finish. destruct (finished s); [intro H; inversion H; reflexivity|].
-  destruct (invalid (set_finished s)) as [[|]|]; try (intro H; inversion H; reflexivity).
+  destruct (invalid c (set_finished s)) as [[|]|]; try (intro H; inversion H; reflexivity).
   destruct (c_models c && has_logic (set_finished s) && has_time_limit c && b2); intro H; inversion H; reflexivity.
 Qed.
 
@@ -118,19 +118,25 @@ Proof.
   destruct r; simpl; try exact J. apply IH. exact J.
 Qed.
 
-Lemma Inv_build_trunk c s : Inv c s -> Inv c (fst (build_trunk s)).
+Lemma refuses_false c s : refuses c s = false -> started s = false.
+Proof. unfold refuses. intro H. apply orb_false_iff in H. tauto. Qed.
+
+Lemma refuses_started c s : started s = true -> refuses c s = true.
+Proof. unfold refuses. intros ->. reflexivity. Qed.
+
+Lemma Inv_build_trunk c s : Inv c s -> Inv c (fst (build_trunk c s)).
 Proof.
   intro I. unfold build_trunk.
   destruct (trunk s) eqn:T; [exact I|].
   destruct (negb (has_arg s)) eqn:A; [exact I|].
   destruct (negb (has_logic s)) eqn:L; [exact I|].
-  destruct (started s) eqn:S; [exact I|].
+  destruct (refuses c s) eqn:S; [exact I|].
   apply negb_false_iff in A, L. destruct I. constructor; simpl; auto.
 Qed.
 
 Lemma Inv_set_argument c s : Inv c s -> Inv c (fst (set_argument c s)).
 Proof.
-  intro I. unfold set_argument. destruct (started s) eqn:S; [exact I|].
+  intro I. unfold set_argument. destruct (refuses c s) eqn:R; [exact I|]. pose proof (refuses_false c s R) as S.
   match goal with |- context [if ?b then _ else _] => destruct b end.
   - apply Inv_build_trunk. destruct I. constructor; simpl; auto.
     all: intro T; try discriminate; destruct (i_trunk0 T) as (H1 & _); congruence.
@@ -140,7 +146,8 @@ Qed.
 
 Lemma Inv_set_logic c s : Inv c s -> Inv c (fst (set_logic c s)).
 Proof.
-  intro I. unfold set_logic. destruct (started s) eqn:S; [exact I|]. destruct (locked s) eqn:L; [exact I|].
+  intro I. unfold set_logic. destruct (refuses c s) eqn:R; [exact I|]. pose proof (refuses_false c s R) as S.
+  destruct (locked s) eqn:L; [exact I|].
   match goal with |- context [if ?b then _ else _] => destruct b end.
   - apply Inv_build_trunk. destruct I. constructor; simpl; auto.
     all: intro T; try discriminate; destruct (i_trunk0 T) as (H1 & _); congruence.
@@ -178,11 +185,11 @@ Theorem steps_bounded c ops z : c_max_steps c = Some z -> (0 < z)%Z -> (Z.of_nat
 Proof. intros M P. exact (i_lim _ _ (Inv_run c ops) z M P). Qed.
 
 (* ---- verdicts --------------------------------------------------------------------- *)
-Lemma premature_no_verdict s : premature s = true -> valid s = None /\ invalid s = None.
-Proof. intro P. unfold valid, invalid, completed. rewrite P, andb_false_r. simpl. auto. Qed.
+Lemma premature_no_verdict c s : premature s = true -> valid c s = None /\ invalid c s = None.
+Proof. intro P. unfold valid, invalid, verdict_ok, completed. rewrite P, andb_false_r. simpl. auto. Qed.
 
-Lemma no_argument_no_verdict_state s : has_arg s = false -> valid s = None /\ invalid s = None.
-Proof. intro A. unfold valid, invalid. rewrite A, andb_false_r. auto. Qed.
+Lemma no_argument_no_verdict_state c s : has_arg s = false -> valid c s = None /\ invalid c s = None.
+Proof. intro A. unfold valid, invalid, verdict_ok. rewrite A, andb_false_r. auto. Qed.
 
 (* ---- limit_premature ----------------------------------------------------------------- *)
 (* stopped by the step limit *)
@@ -190,32 +197,32 @@ Lemma step_limit_stops c b b2 s : Inv c s -> finished s = false -> exceeded c s 
   has_time_limit c && b = false ->
   let '(s', r) := step c b b2 s in
   r = RNone /\ finished s' = true /\ premature s' = true /\ timed_out s' = false /\ hist s' = hist s /\
-  valid s' = None /\ invalid s' = None.
+  valid c s' = None /\ invalid c s' = None.
 Proof.
   intros I F X T. unfold step. rewrite F, T, X. cbn [negb].
   assert (P : premature s = true) by (apply (i_prem _ _ I), F).
   assert (TO : timed_out s = false).
   { destruct (timed_out s) eqn:Q; [|reflexivity]. pose proof (i_to _ _ I Q). congruence. }
   unfold finish. rewrite F.
-  assert (V : invalid (set_finished s) = None).
-  { unfold invalid, completed. simpl. rewrite P. reflexivity. }
+  assert (V : invalid c (set_finished s) = None).
+  { unfold invalid, verdict_ok, completed. simpl. rewrite P. reflexivity. }
   rewrite V. simpl. repeat split; auto.
-  - unfold valid, completed; simpl. rewrite P. reflexivity.
+  - unfold valid, verdict_ok, completed; simpl. rewrite P. reflexivity.
 Qed.
 
 (* stopped by the time limit *)
 Lemma time_limit_stops c b2 s : Inv c s -> finished s = false -> has_time_limit c = true ->
   let '(s', r) := step c true b2 s in
   r = RErr Timeout /\ finished s' = true /\ premature s' = true /\ timed_out s' = true /\ hist s' = hist s /\
-  valid s' = None /\ invalid s' = None.
+  valid c s' = None /\ invalid c s' = None.
 Proof.
   intros I F T. unfold step. rewrite F, T. cbn [andb].
   assert (P : premature s = true) by (apply (i_prem _ _ I), F).
   unfold finish. simpl. rewrite F.
-  assert (V : invalid (set_finished (set_timed_out s)) = None).
-  { unfold invalid, completed. simpl. rewrite P. reflexivity. }
+  assert (V : invalid c (set_finished (set_timed_out s)) = None).
+  { unfold invalid, verdict_ok, completed. simpl. rewrite P. reflexivity. }
   rewrite V. simpl. repeat split; auto.
-  unfold valid, completed; simpl. rewrite P. reflexivity.
+  unfold valid, verdict_ok, completed; simpl. rewrite P. reflexivity.
 Qed.
 
 (* ---- timeout_finishes -------------------------------------------------------------- *)
@@ -276,7 +283,7 @@ Theorem setters_locked c s : started s = true ->
   exec c s SetLogic = (s, RErr IllegalState) /\
   exec c s BuildTrunk = (s, RErr IllegalState).
 Proof.
-  intro S. cbn [exec]. unfold set_argument, set_logic, build_trunk. rewrite S.
+  intro S. cbn [exec]. unfold set_argument, set_logic, build_trunk. rewrite (refuses_started c s S).
   repeat split. ifs; reflexivity.
 Qed.
 
@@ -345,14 +352,14 @@ Proof.
   - pose proof (build_loop_keeps c (S (c_n c - hist s)) 0 k b2 s) as K. cbv zeta in K.
     destruct K as (_ & _ & K & _). unfold build. congruence.
   - congruence.
-  - unfold set_logic. destruct (started s); [exact A|]. destruct (locked s); [exact A|].
+  - unfold set_logic. destruct (refuses c s); [exact A|]. destruct (locked s); [exact A|].
     simpl. rewrite A. simpl. first [reflexivity | exact A].
   - unfold build_trunk. destruct (trunk s); [exact A|]. rewrite A. simpl. first [reflexivity | exact A].
   - unfold add_rule. destruct (locked s); [exact A|]. destruct (added s); simpl; first [reflexivity | exact A].
 Qed.
 
 Theorem no_argument_no_verdict c ops : ~ In SetArgument ops ->
-  valid (run c ops) = None /\ invalid (run c ops) = None.
+  valid c (run c ops) = None /\ invalid c (run c ops) = None.
 Proof.
   intro N. apply no_argument_no_verdict_state. unfold run.
   assert (G : forall s, has_arg s = false -> has_arg (fold_left (fun s o => fst (exec c s o)) ops s) = false).
@@ -365,14 +372,16 @@ Qed.
 (* ---- big_limit_noop ------------------------------------------------------------------ *)
 Definition same_but_limit (c c' : cfg) : Prop :=
   c_n c = c_n c' /\ c_closes c = c_closes c' /\ c_nrules c = c_nrules c' /\ c_auto c = c_auto c' /\
-  c_models c = c_models c' /\ c_timeout c = c_timeout c'.
+  c_models c = c_models c' /\ c_timeout c = c_timeout c' /\ c_fin_lock c = c_fin_lock c' /\
+  c_trunk_verdict c = c_trunk_verdict c'.
 
-Lemma finish_ext c c' b2 s : c_models c = c_models c' -> c_timeout c = c_timeout c' -> finish c b2 s = finish c' b2 s.
-Proof. intros M T. unfold finish, has_time_limit. rewrite M, T. reflexivity. Qed.
+Lemma finish_ext c c' b2 s : c_models c = c_models c' -> c_timeout c = c_timeout c' ->
+  c_trunk_verdict c = c_trunk_verdict c' -> finish c b2 s = finish c' b2 s.
+Proof. intros M T V. unfold finish, has_time_limit, invalid, verdict_ok. rewrite M, T, V. reflexivity. Qed.
 
 Lemma step_ext c c' b b2 s : same_but_limit c c' -> exceeded c s = exceeded c' s -> step c b b2 s = step c' b b2 s.
 Proof.
-  intros (N & C & R & A & M & T) X. unfold step.
+  intros (N & C & R & A & M & T & FL & TV) X. unfold step.
   rewrite !(finish_ext c c' b2) by assumption. unfold has_time_limit, available, apply_rule.
   rewrite N, C, T, X. reflexivity.
 Qed.
@@ -389,14 +398,14 @@ Qed.
 Lemma exec_ext c c' : same_but_limit c c' -> (forall s, Inv c s -> exceeded c s = exceeded c' s) ->
   forall s o, Inv c s -> exec c s o = exec c' s o.
 Proof.
-  intros Sm X s o I. pose proof Sm as (N & C & R & A & M & T).
+  intros Sm X s o I. pose proof Sm as (N & C & R & A & M & T & FL & TV).
   destruct o as [b b2|b2|k b2| | | |]; cbn [exec].
   - apply step_ext; auto.
-  - rewrite (finish_ext c c' b2 s M T). reflexivity.
+  - rewrite (finish_ext c c' b2 s M T TV). reflexivity.
   - unfold build. rewrite N. apply build_loop_ext; auto.
-  - unfold set_argument. rewrite A. reflexivity.
-  - unfold set_logic. rewrite A, R. reflexivity.
-  - reflexivity.
+  - unfold set_argument, build_trunk, refuses. rewrite A, FL. reflexivity.
+  - unfold set_logic, build_trunk, refuses. rewrite A, R, FL. reflexivity.
+  - unfold build_trunk, refuses. rewrite FL. reflexivity.
   - reflexivity.
 Qed.
 
@@ -409,7 +418,7 @@ Proof.
 Qed.
 
 Definition with_limit (c : cfg) (m : option Z) : cfg :=
-  mkCfg (c_n c) (c_closes c) (c_nrules c) (c_auto c) (c_models c) m (c_timeout c).
+  mkCfg (c_n c) (c_closes c) (c_nrules c) (c_auto c) (c_models c) m (c_timeout c) (c_fin_lock c) (c_trunk_verdict c).
 
 Lemma same_with_limit c m m' : same_but_limit (with_limit c m) (with_limit c m').
 Proof. unfold same_but_limit; simpl; tauto. Qed.
@@ -517,13 +526,13 @@ Proof.
 Qed.
 
 (* ---- non-vacuity and observations ------------------------------------------------------- *)
-Definition ex_cfg (m : option Z) (t : option Z) : cfg := mkCfg 4 true 20 true false m t.
+Definition ex_cfg (m : option Z) (t : option Z) : cfg := mkCfg 4 true 20 true false m t false false.
 
-Example ex_limit_cut : observe ROk (run (ex_cfg (Some 2%Z) None) [SetLogic; SetArgument; Build None false]) =
+Example ex_limit_cut : observe (ex_cfg (Some 2%Z) None) ROk (run (ex_cfg (Some 2%Z) None) [SetLogic; SetArgument; Build None false]) =
   (ROk, (true, true, false, true, true), (None, None), (true, 2, 20)).
 Proof. vm_compute. reflexivity. Qed.
 
-Example ex_complete : observe ROk (run (ex_cfg (Some 5%Z) None) [SetLogic; SetArgument; Build None false]) =
+Example ex_complete : observe (ex_cfg (Some 5%Z) None) ROk (run (ex_cfg (Some 5%Z) None) [SetLogic; SetArgument; Build None false]) =
   (ROk, (false, true, false, true, true), (Some true, Some false), (true, 4, 20)).
 Proof. vm_compute. reflexivity. Qed.
 
@@ -542,22 +551,36 @@ Proof. vm_compute. reflexivity. Qed.
 (* a timeout raised while the models of a completed invalid tableau are generated: the tableau is
    finished, flagged TIMED_OUT, but completed, so it keeps its verdict *)
 Example ex_timeout_in_models :
-  let c := mkCfg 1 false 20 true true None (Some 1000%Z) in
+  let c := mkCfg 1 false 20 true true None (Some 1000%Z) false false in
   let p := trace c init [SetLogic; SetArgument; Build None true] in
   map fst p = [ROk; ROk; RErr Timeout] /\
   (let s := run c [SetLogic; SetArgument; Build None true] in
-   finished s = true /\ timed_out s = true /\ premature s = false /\ invalid s = Some true).
+   finished s = true /\ timed_out s = true /\ premature s = false /\ invalid c s = Some true).
 Proof. vm_compute. auto. Qed.
 
 (* Observations about states the property text does not speak about (API misuse).  A natural
    strengthening "a verdict needs a built trunk" is false of the code: *)
 Lemma verdict_needs_trunk_refuted :
-  exists c ops, let s := run c ops in trunk s = false /\ has_logic s = false /\ valid s = Some true.
+  exists c ops, let s := run c ops in trunk s = false /\ has_logic s = false /\ valid c s = Some true.
 Proof. exists (ex_cfg None None), [SetArgument; Build None false]. vm_compute. auto. Qed.
 
 (* ... and "a finished tableau is locked" is false too: a tableau finished before it started
    accepts an argument afterwards, builds a trunk and reports `invalid` with an empty history *)
 Lemma finished_locked_refuted :
   exists c ops, let s := run c ops in let '(s', r) := exec c s SetArgument in
-    finished s = true /\ r = ROk /\ trunk s' = true /\ hist s' = 0 /\ invalid s' = Some true.
+    finished s = true /\ r = ROk /\ trunk s' = true /\ hist s' = 0 /\ invalid c s' = Some true.
 Proof. exists (ex_cfg None None), [SetLogic; Build None false]. vm_compute. auto. Qed.
+
+(* ... while for a tree whose probed behaviour flags are set both strengthenings hold *)
+Lemma verdict_needs_trunk c s : c_trunk_verdict c = true -> trunk s = false ->
+  valid c s = None /\ invalid c s = None.
+Proof. intros V T. unfold valid, invalid, verdict_ok. rewrite V, T. simpl. rewrite andb_false_r. auto. Qed.
+
+Lemma finished_locks_setters c s : c_fin_lock c = true -> finished s = true ->
+  exec c s SetArgument = (s, RErr IllegalState) /\
+  exec c s SetLogic = (s, RErr IllegalState) /\
+  exec c s BuildTrunk = (s, RErr IllegalState).
+Proof.
+  intros L F. assert (R : refuses c s = true) by (unfold refuses; rewrite L, F; apply orb_true_r).
+  cbn [exec]. unfold set_argument, set_logic, build_trunk. rewrite R. repeat split. ifs; reflexivity.
+Qed.
